@@ -85,8 +85,9 @@ def uint64BE (b : Bytes) : Except Panic UInt64 :=
 /-- `binary.BigEndian.PutUint<8k>(b[lo:], v)`: the sub-slice `b[lo:]` (needs `0 ≤ lo ≤ len(b)`), the bounds hint
 `_ = s[k-1]` (needs `k ≤ len(b) - lo`), then `k` bytes of `b`'s array from position `lo` are overwritten. -/
 def putBEAt (b : Bytes) (lo : Int) (k : Nat) (v : Nat) : Except Panic Bytes :=
-  if ¬ (0 ≤ lo ∧ lo ≤ b.len ∧ b.len ≤ b.arr.length) then throw .sliceBounds
+  if ¬ (0 ≤ lo ∧ lo ≤ b.len) then throw .sliceBounds
   else if b.len - lo.toNat < k then throw .indexRange
+  else if ¬ b.len ≤ b.arr.length then throw .sliceBounds    -- not a slice value (`len ≤ cap` always holds in Go)
   else pure { b with arr := b.arr.take lo.toNat ++ beBytes k v ++ b.arr.drop (lo.toNat + k) }
 
 /-- `append(b, make([]T, n)...)`: `n` zero elements after position `len(b)`.  Within the capacity they overwrite the
